@@ -82,7 +82,9 @@ func (s *Surface) gapNL() string {
 			return "\r\n"
 		}
 		s.feat("line-comment")
-		return " // " + hx.Pick(s.R, []string{"c", "", "x: 1", "/* not a block", "\"", "é"}) + "\n"
+		// also the empty comment: `//` directly followed by the line end
+		return hx.Pick(s.R, []string{" ", ""}) + "//" + hx.Pick(s.R, []string{" c", "", "", " x: 1", "/* not a block", "\"", " é", "/", " "}) +
+			hx.Pick(s.R, []string{"\n", "\n", "\r\n"})
 	case 3:
 		s.feat("newline")
 		return "\r\n  "
@@ -118,7 +120,28 @@ func (s *Surface) Str(v string) (string, string) {
 	case 0:
 		if utf8.ValidString(v) && !strings.ContainsAny(v, "`\r") {
 			s.feat("raw-string")
-			return "`" + v + "`", "string-raw"
+			lit := v
+			// carriage returns inside a raw string are discarded (Go): CRLF line ends and stray
+			// CRs in the literal do not change the value
+			switch s.R.Intn(4) {
+			case 0:
+				lit = strings.ReplaceAll(v, "\n", "\r\n")
+				s.feat("raw-string-cr")
+			case 1:
+				k := s.R.Intn(len(v) + 1)
+				for k > 0 && k < len(v) && !utf8.RuneStart(v[k]) {
+					k--
+				}
+				lit = v[:k] + hx.Pick(s.R, []string{"\r", "\r\r", "\r\n"}) + v[k:]
+				if strings.HasSuffix(lit[:k+1], "\r") && strings.Contains(lit[k:], "\n") && !strings.Contains(v, "\n") {
+					lit = v[:k] + "\r" + v[k:] // keep the value: only CRs were added
+				}
+				s.feat("raw-string-cr")
+			}
+			if strings.ReplaceAll(lit, "\r", "") != v {
+				lit = v
+			}
+			return "`" + lit + "`", "string-raw"
 		}
 	case 1:
 		s.feat("json-string")
